@@ -392,3 +392,29 @@ def r13_name_ret(text, name, log):
     new = "-> (%s: %s) " % (name, ty)
     log["R13 name-result"] = log.get("R13 name-result", 0) + 1
     return text[:st[arrow].start] + new + text[st[j - 1].end:]
+
+
+def r14_mut_self(text, log):
+    """fn f(mut self, ..) { B }  ->  fn f(self, ..) { let mut vx_self = self; B[self := vx_self] }   (alpha renaming)"""
+    st = sig(lex(text))
+    hits = find_seq(st, ["(", "mut", "self"])
+    if not hits:
+        return text
+    i = hits[0]
+    # body open
+    j = 0
+    while j < len(st):
+        t = st[j]
+        if t.kind == "punct" and t.text in "([":
+            j = match_close(st, j) + 1
+            continue
+        if t.text == "{":
+            break
+        j += 1
+    edits = [(st[i + 1].start, st[i + 1].end, "")]
+    edits.append((st[j].end, st[j].end, " let mut vx_self = self;"))
+    for k in range(j + 1, len(st)):
+        if st[k].kind == "ident" and st[k].text == "self":
+            edits.append((st[k].start, st[k].end, "vx_self"))
+    log["R14 mut-self"] = log.get("R14 mut-self", 0) + 1
+    return apply_edits(text, edits)
